@@ -4354,6 +4354,10 @@ def common_blockdim(blockdims):
     # For efficiency's sake we reverse the lists so that we can pop off the end
     rchunks = [list(ntd)[::-1] for ntd in non_trivial_dims]
     total = sum(first(non_trivial_dims))
+    if total == 0:
+        # several chunkings of a zero-length dimension, e.g. (0, 0) and
+        # (0, 0, 0): there is nothing to walk over, one empty chunk is common
+        return (0,)
     i = 0
 
     out = []
